@@ -43,7 +43,8 @@ EXPLANATION = (
     "identifier columns are collected from every row chunk. (e) every "
     "column role stored by OnDiskPsmDataset.__init__ is existence-checked. "
     "(f) attributes of pandas.errors used by the parser exist in the "
-    "installed pandas or are accessed defensively. NOT decided: dtype "
+    "installed pandas or are accessed defensively. Also: whole-file read and chunked read of the Parquet reader convert Arrow data with the same arguments (shared with C13). "
+    "NOT decided: dtype "
     "inference, file order of rows.")
 TECHNIQUE = ("exhaustive finite-domain evaluation of an arithmetic guard "
              "(LEN) + slice-partition check (STRIDE) + truth table + "
